@@ -46,6 +46,8 @@ func NewHyperLogLog(numRegisters uint64) (*HyperLogLog, error) {
 
 // Reset sets all values in the _registers_ slice to zero
 func (h *HyperLogLog) Reset() {
+	h.lock.Lock()
+	defer h.lock.Unlock()
 	for i := range h.registers {
 		h.registers[i] = 0
 	}
@@ -80,8 +82,13 @@ func (h *HyperLogLog) Merge(g *HyperLogLog) error {
 	if h.numRegisters != g.numRegisters {
 		return fmt.Errorf("gostatix: number of registers %d, %d don't match", h.numRegisters, g.numRegisters)
 	}
-	for i := range g.registers {
-		h.registers[i] = uint8(util.Max(uint(h.registers[i]), uint(g.registers[i])))
+	g.lock.Lock()
+	other := append([]uint8(nil), g.registers...)
+	g.lock.Unlock()
+	h.lock.Lock()
+	defer h.lock.Unlock()
+	for i := range other {
+		h.registers[i] = uint8(util.Max(uint(h.registers[i]), uint(other[i])))
 	}
 	return nil
 }
@@ -101,6 +108,8 @@ func (h *HyperLogLog) Equals(g *HyperLogLog) bool {
 
 // Export JSON marshals the HyperLogLog and returns a byte slice containing the data
 func (h *HyperLogLog) Export() ([]byte, error) {
+	h.lock.Lock()
+	defer h.lock.Unlock()
 	return json.Marshal(hyperLogLogJSON{h.numRegisters, h.numBytesPerHash, h.correctionBias, h.registers, ""})
 }
 
@@ -122,6 +131,8 @@ func (h *HyperLogLog) Import(data []byte) error {
 // number of bytes written.
 // It can be used to write to disk (using a file stream) or to network.
 func (h *HyperLogLog) WriteTo(stream io.Writer) (int64, error) {
+	h.lock.Lock()
+	defer h.lock.Unlock()
 	err := binary.Write(stream, binary.BigEndian, h.numRegisters)
 	if err != nil {
 		return 0, err
